@@ -490,6 +490,15 @@ func lenAtLeast(base, N ssa.Value, conds []core.CondEdge, measured string) bool 
 			return true
 		}
 	}
+	// base holds the arguments of a function that is only entered through functions.NumArgsCheck(len(seq), f): it has
+	// exactly len(seq) elements (the wrapper's contract is C04/R3)
+	if prm, ok := base.(*ssa.Parameter); ok {
+		if a, isLen := isLenCall(N); isLen {
+			if seq := argsCountChecked(prm, 0); seq != "" && seq == recvCanonOf(a, prm.Parent()) {
+				return true
+			}
+		}
+	}
 	b := derefLocal(base)
 	if mk, ok := b.(*ssa.MakeSlice); ok {
 		if equivLen(mk.Len, N) {
@@ -975,6 +984,158 @@ func forwardedIndexParams(fns []*ssa.Function) map[*ssa.Function]idxForward {
 				}
 			}
 		}
+	}
+	return out
+}
+
+// recvCanonOf renders a field path rooted at the receiver as "recv.f.g": the root is the receiver parameter of the
+// method fn belongs to, a local cell holding it (a captured receiver is spilled), or — inside a function literal — the
+// captured variable of the receiver's name. "" for anything else.
+func recvCanonOf(v ssa.Value, fn *ssa.Function) string {
+	root := fn
+	for root != nil && root.Parent() != nil {
+		root = root.Parent()
+	}
+	if root == nil || root.Signature.Recv() == nil || len(root.Params) == 0 {
+		return ""
+	}
+	recv := root.Params[0]
+	var fields []string
+	for k := 0; k < 12; k++ {
+		switch x := v.(type) {
+		case *ssa.UnOp:
+			if x.Op != token.MUL {
+				return ""
+			}
+			v = x.X
+		case *ssa.FieldAddr:
+			fields = append([]string{core.FieldAddrVar(x).Name()}, fields...)
+			v = x.X
+		case *ssa.Field:
+			fields = append([]string{core.FieldAddrVar(x).Name()}, fields...)
+			v = x.X
+		case *ssa.Slice:
+			if x.Low != nil || x.High != nil {
+				return ""
+			}
+			v = x.X
+		case *ssa.Parameter:
+			if x != recv {
+				return ""
+			}
+			return "recv." + strings.Join(fields, ".")
+		case *ssa.FreeVar:
+			if x.Name() != recv.Name() {
+				return ""
+			}
+			return "recv." + strings.Join(fields, ".")
+		case *ssa.Alloc:
+			// a cell that only ever holds the receiver
+			if x.Referrers() == nil {
+				return ""
+			}
+			n := 0
+			for _, ref := range *x.Referrers() {
+				if st, ok := ref.(*ssa.Store); ok && st.Addr == ssa.Value(x) {
+					n++
+					if st.Val != ssa.Value(recv) {
+						return ""
+					}
+				}
+			}
+			if n != 1 {
+				return ""
+			}
+			return "recv." + strings.Join(fields, ".")
+		default:
+			return ""
+		}
+	}
+	return ""
+}
+
+// argsCountChecked: prm, the (variadic) arguments parameter of a function, is only ever filled through
+// functions.NumArgsCheck(len(seq), f) — f being the function literal prm belongs to, or a literal that forwards its own
+// arguments unchanged to the named function prm belongs to (on the same receiver). Returns seq with the receiver
+// written as "recv", or "".
+func argsCountChecked(prm *ssa.Parameter, depth int) string {
+	fn := prm.Parent()
+	if fn == nil || depth > 1 {
+		return ""
+	}
+	idx := -1
+	for i, fp := range fn.Params {
+		if fp == prm {
+			idx = i
+		}
+	}
+	if idx < 0 {
+		return ""
+	}
+	if par := fn.Parent(); par != nil {
+		// a function literal: its only use is as the second argument of NumArgsCheck
+		out := ""
+		for _, b := range par.Blocks {
+			for _, in := range b.Instrs {
+				mc, ok := in.(*ssa.MakeClosure)
+				if !ok || mc.Fn != ssa.Value(fn) || mc.Referrers() == nil {
+					continue
+				}
+				for _, ref := range *mc.Referrers() {
+					var user ssa.Instruction = ref
+					// through a conversion to the named function type
+					if ct, ok := ref.(*ssa.ChangeType); ok && ct.Referrers() != nil && len(*ct.Referrers()) == 1 {
+						user = (*ct.Referrers())[0]
+					}
+					c, ok := user.(*ssa.Call)
+					if !ok {
+						return ""
+					}
+					o := core.CalleeObj(&c.Call)
+					if o == nil || core.ObjName(o) != "excellent/functions.NumArgsCheck" || len(c.Call.Args) != 2 {
+						return ""
+					}
+					a, isLen := isLenCall(c.Call.Args[0])
+					if !isLen {
+						return ""
+					}
+					out = recvCanonOf(a, par)
+				}
+			}
+		}
+		return out
+	}
+	// a named function: every caller is a literal that passes its own arguments parameter on, on the captured receiver
+	if lenLBProgram == nil || fn.Object() == nil || fn.Object().Exported() {
+		return ""
+	}
+	sites := lenLBProgram.CallsTo(fn)
+	out := ""
+	for _, cs := range sites {
+		if lenLBProgram.IsTestFile(cs.Pos()) {
+			continue
+		}
+		if idx >= len(cs.Common().Args) || cs.Caller.Parent() == nil {
+			return ""
+		}
+		fwd, ok := cs.Common().Args[idx].(*ssa.Parameter)
+		if !ok || fwd.Parent() != cs.Caller {
+			return ""
+		}
+		if fn.Signature.Recv() != nil {
+			ra := core.StripConv(cs.Common().Args[0])
+			if ld, isLd := ra.(*ssa.UnOp); isLd && ld.Op == token.MUL {
+				ra = ld.X // a captured receiver is reached through its cell
+			}
+			if _, isFV := ra.(*ssa.FreeVar); !isFV {
+				return ""
+			}
+		}
+		seq := argsCountChecked(fwd, depth+1)
+		if seq == "" || (out != "" && out != seq) {
+			return ""
+		}
+		out = seq
 	}
 	return out
 }
